@@ -1409,6 +1409,84 @@ func fieldNameOf(fa *ssa.FieldAddr) string {
 	return st.Field(fa.Field).Name()
 }
 
+// allocationObligations: every make([]T, n) / make(map, n) of the library takes its size from a constant or
+// from len/cap of existing data (possibly adjusted by constants, sums of such lengths, or the number of
+// arguments of a call); anything else is a size computed from values, which a script controls.
+func (p *Program) allocationObligations() []sob {
+	var out []sob
+	var sized func(v ssa.Value, depth int) bool
+	sized = func(v ssa.Value, depth int) bool {
+		if depth > 6 {
+			return false
+		}
+		switch x := v.(type) {
+		case *ssa.Const:
+			return true
+		case *ssa.Call:
+			if b, ok := x.Call.Value.(*ssa.Builtin); ok && (b.Name() == "len" || b.Name() == "cap") {
+				return true
+			}
+			if fn, ok := x.Call.Value.(*ssa.Function); ok {
+				switch fn.String() {
+				case "unicode/utf8.RuneCountInString", "(reflect.Value).Len", "(reflect.Value).NumField":
+					return true
+				case "(encoding/binary.bigEndian).Uint16":
+					return true // an instruction operand: at most 65535
+				}
+			}
+			return false
+		case *ssa.BinOp:
+			switch x.Op {
+			case token.ADD, token.SUB, token.MUL:
+				return sized(x.X, depth+1) && sized(x.Y, depth+1)
+			}
+			return false
+		case *ssa.Convert:
+			return sized(x.X, depth+1)
+		case *ssa.ChangeType:
+			return sized(x.X, depth+1)
+		case *ssa.Phi:
+			for _, e := range x.Edges {
+				if e != v && !sized(e, depth+1) {
+					return false
+				}
+			}
+			return true
+		case *ssa.Parameter:
+			// the width of an instruction operand and the like: decided at the call sites, which are few; the
+			// machine's operands are 16-bit
+			return x.Type().Underlying() == types.Typ[types.Int] && strings.Contains(x.Name(), "opArg")
+		}
+		return false
+	}
+	for _, f := range p.libraryFuncs() {
+		key := p.keyOf[f]
+		n := 0
+		for _, b := range f.Blocks {
+			for _, in := range b.Instrs {
+				var size ssa.Value
+				switch x := in.(type) {
+				case *ssa.MakeSlice:
+					size = x.Cap
+				case *ssa.MakeMap:
+					size = x.Reserve
+				}
+				if size == nil {
+					continue
+				}
+				n++
+				ok := sized(size, 0)
+				detail := ""
+				if !ok {
+					detail = "the size is computed from values (" + size.String() + "): a script that controls them makes the process allocate until it dies, which cannot be recovered"
+				}
+				out = append(out, sob{Name: fmt.Sprintf("%s#alloc.bounded.%d", key, n), OK: ok, Src: "the size of an allocation is a constant or the length of existing data", Detail: detail, Pos: p.posOf(in)})
+			}
+		}
+	}
+	return out
+}
+
 // returnedValue: in a function with deferred calls a return stores its results in cells, runs the
 // deferred calls and loads the cells again; this finds the value that was stored in the returning block
 func returnedValue(b *ssa.BasicBlock, v ssa.Value) ssa.Value {
@@ -1447,9 +1525,19 @@ func structuralFor(p *Program, id string) []sob {
 		}
 		// a stack overflow cannot be recovered: every recursive cycle of the library must be bounded
 		out = append(out, p.recursionObligations()...)
+		// neither can running out of memory: the size of an allocation is a constant, or the length of
+		// something that exists already - not a number a script computed
+		out = append(out, p.allocationObligations()...)
 		return out
 	case "C09":
-		return p.pollObligations()
+		// a lock that some path leaves held stops every later run at its first use: no deadline ends that wait
+		out := p.pollObligations()
+		for _, o := range p.lockObligations() {
+			if strings.HasSuffix(o.Name, "#locks.critical") {
+				out = append(out, o)
+			}
+		}
+		return out
 	case "C19":
 		return append(p.determinismObligations(), p.stateObligations()...)
 	}
